@@ -86,6 +86,39 @@ type env struct {
 	// poisoned: a finisher panicked inside gorm on the twin (possibly inside its
 	// default transaction); the history stops after comparing that outcome
 	poisoned bool
+	// finished dry-run statements of this environment with a deep snapshot
+	// (rendered text) of their SQL and Vars taken when the finisher returned
+	kept      []keptStmt
+	at        int    // index of the action being run
+	label     string // its rendering
+	from      int    // handle its chain was started from (0 = Open)
+	fromChain bool   // that handle's Statement object was allocated by a chain call
+	rechecked int64
+}
+
+type keptStmt struct {
+	at        int
+	label     string
+	stmt      *gorm.Statement
+	sql, vars string
+	from      int // handle the chain was started from
+	nvars     int
+}
+
+// recheck re-reads every finished dry-run statement: a finished chain is never
+// continued by the harness, so nobody may change its SQL text or bound values
+// any more. Values are compared deeply (rendered), not by slice identity.
+func (e *env) recheck(now int, nowLabel string) string {
+	for _, k := range e.kept {
+		e.rechecked++
+		sql, vars := k.stmt.SQL.String(), renderVars(k.stmt.Vars)
+		if sql != k.sql || vars != k.vars {
+			return fmt.Sprintf("the dry-run statement finished by action #%d (%s) changed after action #%d (%s) was run:\n"+
+				"      SQL  when finished: %s\n      SQL  now:           %s\n      Vars when finished: %s\n      Vars now:           %s",
+				k.at, k.label, now, nowLabel, k.sql, sql, k.vars, vars)
+		}
+	}
+	return ""
 }
 
 func fixedNow() time.Time { return testdb.FixedNow }
@@ -949,6 +982,24 @@ func runFin(e *env, p pair, fin int, mode string) outcome {
 		o.DrySQL = tx.Statement.SQL.String()
 		o.DryVars = renderVars(tx.Statement.Vars)
 		o.DryErr = errText(tx.Error)
+		// the finished dry-run statement is kept: its SQL and bound values must stay
+		// what they are now whatever is built or executed later ("earlier or later")
+		k := keptStmt{at: e.at, label: e.label, stmt: tx.Statement, sql: o.DrySQL, vars: o.DryVars, from: e.from, nvars: len(tx.Statement.Vars)}
+		if k.from > 0 && e.fromChain && k.nvars > 0 {
+			// evidence: the shape in which sibling chains could share a Vars array - a handle
+			// taken from a chain (its statement was allocated by a chain call), two or more
+			// chains from it that each bind values, the earlier one re-read after the later one
+			for _, o := range e.kept {
+				if o.from == k.from && o.nvars > 0 {
+					evid.Class("reread:sibling-chains-with-bound-values-from-chain-derived-handle")
+					if o.nvars+k.nvars <= 8 {
+						evid.Class("reread:…of which both within 8 values")
+					}
+					break
+				}
+			}
+		}
+		e.kept = append(e.kept, k)
 	}
 	if fd.write && mode != "rw" {
 		o.LiteStmts = "(not run)"
@@ -1074,6 +1125,25 @@ func run(h History) string {
 			evid.Class("outcome:panic-in-gorm (history truncated)")
 			break
 		}
+		if i > 0 {
+			// every statement finished so far must still read as it did when it finished
+			if v := e.recheck(i-1, h.Actions[i-1].String()); v != "" {
+				return v
+			}
+		}
+		e.at, e.label = i, a.String()
+		switch a.Kind {
+		case "finish":
+			e.from = chains[a.C].from.id
+		case "direct":
+			e.from = a.H
+		case "repeat":
+			e.from = done[a.Ref].from.id
+		}
+		if a.Kind == "finish" || a.Kind == "direct" || a.Kind == "repeat" {
+			raw, _, _ := stateOf(handles[e.from])
+			e.fromChain = len(raw) > 0
+		}
 		switch a.Kind {
 		case "derive":
 			par := handles[a.H]
@@ -1121,6 +1191,12 @@ func run(h History) string {
 			}
 		}
 	}
+	if n := len(h.Actions); n > 0 {
+		if v := e.recheck(n-1, h.Actions[n-1].String()); v != "" {
+			return v
+		}
+	}
+	evid.AddExtra("finished_statements_reread", e.rechecked)
 	return ""
 }
 
@@ -1617,7 +1693,8 @@ func genHistory(rt *rapid.T) History {
 
 const rule = "C06: histories (<=25 actions, <=4 reusable handles, <=6 live chains) over a tree of handles rooted at Open: " +
 	"derive a handle (chain calls + Session/WithContext/Debug/Session{...}/Begin), promote a live chain to a handle, start / extend / finish / abandon linear chains, " +
-	"finish directly on a handle, rebuild an already finished chain; every finisher is compared (dry-run SQL+Vars+error, SQLite statements+rows+error) with its call path replayed alone on a fresh Open. " +
+	"finish directly on a handle, rebuild an already finished chain; every finisher is compared (dry-run SQL+Vars+error, SQLite statements+rows+error) with its call path replayed alone on a fresh Open, " +
+	"and every finished dry-run statement is re-read after each later action (its SQL and bound values must not change any more). " +
 	"non-trivial = two chains whose deepest common handle is not Open and holds a merging clause (WHERE/ORDER/GROUP/RETURNING/JOINS/SCOPES), that overlap in time " +
 	"(the second is started while the first is unfinished and the first is extended or finished afterwards), and at least one of them adds a merging clause below that handle; " +
 	"distinct = mode + full action sequence"
